@@ -240,6 +240,12 @@ AssignOnOK(D, P, Q, v, e, x) ==
      /\ (D.vecs[v].rule = "AnyOfMany" => /\ Q.val[v][e] = x
                                          /\ \A j \in DOMAIN Q.val[v] : j # e => Q.val[v][j] = P.val[v][j])
 
+\* selecting by name is "turning On": a single valid name leaves that switch On; in an AnyOfMany vector exactly the named switches are On
+SelectOnOK(D, Q, v, names) ==
+  (D.vecs[v].kind = "switch" /\ names \subseteq Range(D.vecs[v].elems)) =>
+     /\ (Cardinality(names) = 1 => \A j \in DOMAIN Q.val[v] : D.vecs[v].elems[j] \in names => Q.val[v][j] = On)
+     /\ (D.vecs[v].rule = "AnyOfMany" => \A j \in DOMAIN Q.val[v] : Q.val[v][j] = (IF D.vecs[v].elems[j] \in names THEN On ELSE Off))
+
 (* C06 / C12: frame -- nothing but the addressed vector of the addressed devices changes; no state / enable flag changes *)
 FrameOK(D, P, Q, target, vecname) ==
   /\ Q.vst = P.vst /\ Q.ven = P.ven /\ Q.gen = P.gen
